@@ -1,0 +1,155 @@
+//! Verification hooks, compiled only with the cargo feature `verif` (off by default).
+//!
+//! Thin, add-only access to internal components for the external verification harness:
+//! nothing here changes the behaviour of the engine; every function only constructs or drives
+//! the existing internal structs.
+
+use std::any::TypeId;
+
+use crate::block::BatchMode;
+use crate::config::RuntimeConfig;
+use crate::network::{Coord, NetworkMessage, NetworkSender, NetworkTopology, ReceiverEndpoint};
+use crate::operator::{BinaryElement, ExchangeData, Operator, Start, StreamElement};
+use crate::scheduler::{BlockId, ExecutionMetadata};
+use crate::stream::Stream;
+use crate::CoordUInt;
+
+/// Take the operator chain built so far out of a stream (the block is never scheduled).
+pub fn into_chain<Op: Operator>(stream: Stream<Op>) -> Op {
+    stream.block.operators
+}
+
+/// The id of the block the stream is currently building.
+pub fn block_id<Op: Operator>(stream: &Stream<Op>) -> BlockId {
+    stream.block.id
+}
+
+/// A local network around one replica `dest`, with hand-driven senders for its previous blocks.
+pub struct Net {
+    topology: NetworkTopology,
+    dest: Coord,
+    prev: Vec<(Coord, TypeId)>,
+}
+
+/// One upstream replica of [`Net`].
+pub struct NetSender<T: ExchangeData> {
+    pub coord: Coord,
+    sender: NetworkSender<T>,
+}
+
+impl<T: ExchangeData> NetSender<T> {
+    /// Send one batch, as `End`/`Batcher` would. Blocks when the channel is full.
+    pub fn send(&self, batch: Vec<StreamElement<T>>) {
+        self.sender
+            .send(NetworkMessage::new_batch(batch, self.coord))
+            .unwrap();
+    }
+}
+
+impl Net {
+    pub fn new(dest_block: BlockId) -> Self {
+        let config = RuntimeConfig::local(1).unwrap();
+        Self {
+            topology: NetworkTopology::new(config),
+            dest: Coord::new(dest_block, 0, 0),
+            prev: vec![],
+        }
+    }
+
+    /// Connect `replicas` replicas of block `block_id` to the destination replica.
+    pub fn add_prev<T: ExchangeData>(
+        &mut self,
+        block_id: BlockId,
+        replicas: CoordUInt,
+    ) -> Vec<NetSender<T>> {
+        let typ = TypeId::of::<T>();
+        let mut res = vec![];
+        for replica_id in 0..replicas {
+            let coord = Coord::new(block_id, 0, replica_id);
+            self.topology.connect(coord, self.dest, typ, false);
+            let sender = self
+                .topology
+                .get_sender(ReceiverEndpoint::new(self.dest, block_id));
+            self.prev.push((coord, typ));
+            res.push(NetSender { coord, sender });
+        }
+        res
+    }
+
+    pub fn metadata(&mut self, batch_mode: BatchMode) -> ExecutionMetadata<'_> {
+        ExecutionMetadata {
+            coord: self.dest,
+            replicas: vec![self.dest],
+            global_id: 0,
+            prev: self.prev.clone(),
+            network: &mut self.topology,
+            batch_mode,
+        }
+    }
+}
+
+/// The real `Start` operator reading from a single previous block.
+pub fn start_single<T: ExchangeData>(prev_block: BlockId) -> impl Operator<Out = T> {
+    Start::single(prev_block, None)
+}
+
+/// The real two-input `Start` operator (optionally caching one side, as inside loops).
+pub fn start_binary<L: ExchangeData, R: ExchangeData>(
+    prev_left: BlockId,
+    prev_right: BlockId,
+    left_cache: bool,
+    right_cache: bool,
+) -> impl Operator<Out = Bin<L, R>> {
+    BinMirror {
+        inner: Start::<crate::operator::BinaryStartReceiver<L, R>>::multiple(
+            prev_left,
+            prev_right,
+            left_cache,
+            right_cache,
+            None,
+        ),
+    }
+}
+
+#[derive(Clone)]
+struct BinMirror<Op> {
+    inner: Op,
+}
+
+impl<Op> std::fmt::Display for BinMirror<Op> {
+    fn fmt(&self, f: &mut std::fmt::Formatter<'_>) -> std::fmt::Result {
+        write!(f, "BinMirror")
+    }
+}
+
+impl<L: ExchangeData, R: ExchangeData, Op: Operator<Out = BinaryElement<L, R>>> Operator
+    for BinMirror<Op>
+{
+    type Out = Bin<L, R>;
+
+    fn setup(&mut self, metadata: &mut ExecutionMetadata) {
+        self.inner.setup(metadata)
+    }
+
+    fn next(&mut self) -> StreamElement<Bin<L, R>> {
+        self.inner.next().map(|el| match el {
+            BinaryElement::Left(l) => Bin::Left(l),
+            BinaryElement::Right(r) => Bin::Right(r),
+            BinaryElement::LeftEnd => Bin::LeftEnd,
+            BinaryElement::RightEnd => Bin::RightEnd,
+        })
+    }
+
+    fn structure(&self) -> crate::block::BlockStructure {
+        self.inner.structure()
+    }
+}
+
+/// Public mirror of the internal `BinaryElement`.
+#[derive(Clone, Debug, PartialEq, Eq)]
+pub enum Bin<L, R> {
+    Left(L),
+    Right(R),
+    LeftEnd,
+    RightEnd,
+}
